@@ -171,8 +171,49 @@ def rule_matrix(ctx, py):
     ctx.floor(R, 4)
 
 
+def rule_print(ctx, py):
+    """to_string: the '+' separator is emitted iff an earlier term was emitted (terms with coefficient 0 are skipped)"""
+    R = "C19.PRINT"
+    f = py.fn(RX + "to_string")
+    inner = [n for n in ast.walk(f) if isinstance(n, ast.FunctionDef) and n is not f]
+    ctx.need(len(inner) == 1, R, "to_string: side encoder not found")
+    g = inner[0]
+    loops = [n for n in ast.walk(g) if isinstance(n, ast.For)]
+    ctx.need(len(loops) == 1, R, "encode_side: term loop not found")
+    lp = loops[0]
+    guards = [n for n in lp.body if isinstance(n, ast.If)]
+    ctx.need(len(guards) == 1 and not guards[0].orelse, R, "encode_side: non-zero coefficient guard not found")
+    gd = guards[0]
+    at = pya.atoms(gd.test, True)
+    ctx.check(len(at) == 1 and at[0][1] is False and at[0][0].endswith("== 0"), R, gd, f._qual, "terms with coefficient 0 are "
+              "skipped (%s)" % pyfe.src(gd.test), "", "zero-coefficient terms are printed")
+    seps = [n for n in gd.body if isinstance(n, ast.If) and "'+" in pyfe.src(n)]
+    ctx.need(len(seps) == 1, R, "encode_side: separator emission not found")
+    names = {x.id for x in ast.walk(seps[0].test) if isinstance(x, ast.Name)}
+    loopvars = {x.id for x in ast.walk(lp.target) if isinstance(x, ast.Name)}
+    # the condition may only depend on state that changes when a term is emitted: assigned inside the guard, not a loop target
+    assigned_in_guard = {pyfe.src(t) for st in ast.walk(gd) if isinstance(st, (ast.Assign, ast.AugAssign))
+                         for t in (st.targets if isinstance(st, ast.Assign) else [st.target])}
+    assigned_outside = {pyfe.src(t) for st in lp.body if st is not gd for x in ast.walk(st)
+                        if isinstance(x, (ast.Assign, ast.AugAssign))
+                        for t in (x.targets if isinstance(x, ast.Assign) else [x.target])}
+    ok = bool(names) and not (names & loopvars) and names <= assigned_in_guard | {"string"} and not (names & assigned_outside)
+    ctx.check(ok, R, seps[0], f._qual, "separator emitted when %s" % pyfe.src(seps[0].test),
+              "depends only on whether an earlier term was emitted", "the separator depends on %s, which advances for skipped "
+              "(zero-coefficient) terms too: '0 A + B -> C' prints as '+ B -> C', which the parser rejects"
+              % sorted(names & (loopvars | assigned_outside) or names))
+    ctx.floor(R, 2)
+
+
 def run(ctx):
     py = ctx.py
+    rule_print(ctx, py)
+    n0 = len(ctx.insts)
+    c20.rule_wrap(ctx, py)
+    for i_ in ctx.insts[n0:]:
+        i_.rule = "C19.KDIM"
+    ctx.floors.pop("C20.WRAP", None)
+    ctx.floor("C19.KDIM", 5)
     rule_dims(ctx, py)
     rule_sides(ctx, py)
     rule_split(ctx, py)
